@@ -108,6 +108,7 @@ pub struct Conn {
     /// peer silently vanished: writes are swallowed, nothing is ever delivered
     blackholed: bool,
     pub dead_since_ns: Option<u64>,
+    pub created_ns: u64,
     open_ends: u8,
 }
 
@@ -199,6 +200,13 @@ impl SimNet {
 
     pub fn uninstall() {
         litep2p::verif::net::install(None);
+    }
+
+    /// Remove the not yet fired connect-time and byte-offset faults (start of a fault-free phase).
+    pub fn clear_static_faults(&self) {
+        let mut st = self.st.lock().unwrap();
+        st.connect_faults.clear();
+        st.byte_faults.clear();
     }
 
     pub fn conn_count(&self) -> usize {
@@ -299,6 +307,11 @@ impl SimNet {
     /// Host goes away. `vanish = false`: its connections are reset and later connects refused;
     /// `vanish = true`: its connections go silent and later connects are black-holed.
     pub fn host_down(&self, ip: IpAddr, vanish: bool) {
+        self.host_down_opt(ip, vanish, true)
+    }
+
+    /// `count = false`: part of the static topology (a ghost host), not an injected fault.
+    pub fn host_down_opt(&self, ip: IpAddr, vanish: bool, count: bool) {
         let mut st = self.st.lock().unwrap();
         st.down.insert(ip, vanish);
         let addrs: Vec<SocketAddr> = st.listeners.keys().filter(|a| a.ip() == ip).cloned().collect();
@@ -321,7 +334,9 @@ impl SimNet {
             }
         }
         self.handle.event(format!("net: host {ip} down vanish={vanish}"));
-        self.handle.fault(if vanish { "kill_vanish" } else { "kill_reset" });
+        if count {
+            self.handle.fault(if vanish { "kill_vanish" } else { "kill_reset" });
+        }
     }
 
     pub fn host_up(&self, ip: IpAddr) {
@@ -329,14 +344,14 @@ impl SimNet {
         self.handle.event(format!("net: host {ip} up"));
     }
 
-    /// (id, client, server, dead_since_ns)
-    pub fn conn_table(&self) -> Vec<(usize, SocketAddr, SocketAddr, Option<u64>)> {
+    /// (id, client, server, dead_since_ns, created_ns)
+    pub fn conn_table(&self) -> Vec<(usize, SocketAddr, SocketAddr, Option<u64>, u64)> {
         let st = self.st.lock().unwrap();
         st.conns
             .iter()
             .map(|c| {
                 let c = c.lock().unwrap();
-                (c.id, c.client, c.server, c.dead_since_ns)
+                (c.id, c.client, c.server, c.dead_since_ns, c.created_ns)
             })
             .collect()
     }
@@ -596,7 +611,9 @@ impl NetBackend for SimNet {
             (nth, fault, rng, st.knobs.clone(), st.next_port)
         };
         Box::pin(async move {
-            let from: SocketAddr = SocketAddr::new(from_ip, local.map(|l| l.port()).unwrap_or(port));
+            // the source port is always unique (4-tuple collisions of SO_REUSEPORT are not modelled)
+            let _ = local;
+            let from: SocketAddr = SocketAddr::new(from_ip, port);
             handle.event(format!("net: connect#{nth} {from} -> {remote} fault={fault:?}"));
             let rtt = Duration::from_micros(2 * (knobs.lat_min_us + rng.below(knobs.lat_jitter_us + 1)));
             match fault {
@@ -636,7 +653,7 @@ impl NetBackend for SimNet {
                     Pre::Hang
                 } else if let Some(l) = st.listeners.get(&remote).cloned() {
                     let id = st.conns.len();
-                    let mut conn = Conn { id, client: from, server: remote, pipes: [Pipe::new(), Pipe::new()], reset: false, stalled: false, blackholed: false, dead_since_ns: None, open_ends: 2 };
+                    let mut conn = Conn { id, client: from, server: remote, pipes: [Pipe::new(), Pipe::new()], reset: false, stalled: false, blackholed: false, dead_since_ns: None, created_ns: crate::seams::now_ns(), open_ends: 2 };
                     if let Some(bf) = st.byte_faults.get(&id).cloned() {
                         let p = &mut conn.pipes[bf.dir % 2];
                         if bf.reset {
